@@ -1,4 +1,5 @@
 import GomlVerif.Lemmas.MonoSem
+import GomlVerif.Lemmas.MonoKey
 /-!
 # C07 — generic code behaves identically at every instantiation and is fully specialised
 
@@ -83,6 +84,45 @@ theorem monoExpr_is_pure (F : List Fn) (σ : Subst) (e : Expr) (c : Ctx) (h : In
 /-- the name of an instance is a function of its key (so "same key ⇒ same name" needs no table) -/
 theorem instance_name_of_key (n : String) (s s' : Subst) (h : key s = key s') : specName n s = specName n s' :=
   specName_key h
+
+/-! ### one instance, however its bindings were found
+
+Two requests are the same instance when their `SubstKey`s are equal.  A request builds its substitution by
+unifying the parts of the callee's signature with the use site, so the ORDER of the entries depends on the
+route (a call unifies parameters then result; a function value could do it the other way round; nested
+requests see the parameters in the order of the enclosing signature).  The key must not depend on it. -/
+
+/-- the model's `key` is `SubstKey::new` of the source as it is now (`sourceKey` is driven by the regenerated
+`Gen.substKeyOrder`: this stops being `rfl` when mono.rs no longer sorts the entries) -/
+theorem key_is_source_key : key = sourceKey := rfl
+
+/-- the model's two request routes (`resolveCall`, `specializeValue`) unify the parts of the signature in the
+order the source does (regenerated `Gen.callUnifyOrder` / `Gen.valueUnifyOrder`) -/
+theorem request_orders_are_source_orders :
+    Gen.callUnifyOrder = [.params, .ret] ∧ Gen.valueUnifyOrder = [.params, .ret] := by decide
+
+/-- `SubstKey::new` of the source is insensitive to the order in which the bindings were inserted: two
+permutations of one set of bindings (distinct parameter names) have the same key -/
+theorem key_order_irrelevant (σ σ' : Subst) (hp : σ.Perm σ') (hn : (σ.map (·.1)).Nodup) :
+    sourceKey σ = sourceKey σ' := by
+  rw [← key_is_source_key]; exact key_perm hp hn
+
+/-- …hence every instance is requested ONCE whatever the routes: after `ensure_instance(n, σ)`, a request for
+the same bindings found in another order returns the same name and changes nothing — no second entry in the
+instance table, nothing queued, no work item (with `instances_unique`: one emitted function) -/
+theorem same_instance_requested_once (c : Ctx) (n : String) (σ σ' : Subst) (hp : σ.Perm σ')
+    (hn : (σ.map (·.1)).Nodup) : ensureInstance (ensureInstance c n σ).2 n σ' = ensureInstance c n σ :=
+  ensureInstance_again c n σ σ' (key_perm hp hn)
+
+-- non-vacuity: `fn swap[A, B](a: A, b: B) -> (B, A)` at (int32, string); parameters first, or the result first
+example : (unifyList [.param "A", .param "B"] [.int 32 true, .string] []).bind
+    (unify (.tuple [.param "B", .param "A"]) (.tuple [.string, .int 32 true])) = some [("A", .int 32 true), ("B", .string)] := by rfl
+example : (unify (.tuple [.param "B", .param "A"]) (.tuple [.string, .int 32 true]) []).bind
+    (unifyList [.param "A", .param "B"] [.int 32 true, .string]) = some [("B", .string), ("A", .int 32 true)] := by rfl
+example : key [("A", .int 32 true), ("B", .string)] = key [("B", .string), ("A", .int 32 true)] :=
+  key_perm (List.Perm.swap _ _ _) (by decide)
+example : (ensureInstance (ensureInstance {} "swap" [("A", .int 32 true), ("B", .string)]).2 "swap" [("B", .string), ("A", .int 32 true)]).2.instances.length = 1 := by
+  rw [same_instance_requested_once _ _ _ _ (List.Perm.swap _ _ _) (by decide)]; rfl
 
 /-! ## P4 — no residue of type parameters -/
 
